@@ -558,6 +558,8 @@ def oracle(case, obs, prof):
     verdict = obs.split(' steps=')[0]
     if verdict in ('timeout', 'notrun', 'missing') or verdict.startswith('crash'):
         return 'the checker did not answer: %s' % verdict
+    if verdict == 'nondeterministic' or verdict.startswith('unstable'):
+        return 'the verdict depends on the history of the type-check context: %s' % verdict
     want = spec_verdict(case)
     if want is None:
         return None            # ill-formed specification (undefined name / empty disjunction): no claim
@@ -909,6 +911,11 @@ DESIGN_WITNESSES = [
     'v - - H(O(m,q),O(m,q,s)) A(t,m6e)',
     'v - - !n R9.0',
     'v - - !_ R9.0',
+    # reference chains with a tail before their cycle
+    'v 1.0=R2.0;2.0=R3.0;3.0=R2.0 - n R1.0',
+    'v 1.0=R2.0;2.0=R2.0 - i R1.0',
+    'v 1.0=R2.0;2.0=R3.0;3.0=R4.0;4.0=R3.0 - A(O(n,i)) A(i5,R1.0)',
+    'v 1.0=R2.0;2.0=R3.0;3.0=R3.0 - D(4b+:n) D(4b:R1.0)',
 ]
 
 
